@@ -201,6 +201,19 @@ impl MemoryAccessor for TestRunnerAdapter {
     }
 }
 
+impl TestRunnerAdapter {
+    /// Makes the machine stop at its current program counter. The caller holds the lock of the running state.
+    fn stop_where_we_are(&self, state: &mut MachineRunningState) -> MosResult<()> {
+        let pc = self.runner.read().unwrap().cpu().get_program_counter();
+        let old = *state;
+        let new = MachineRunningState::Stopped(ProgramCounter::new(pc as usize));
+        *state = new;
+        self.event_sender
+            .send(MachineEvent::RunningStateChanged { old, new })?;
+        Ok(())
+    }
+}
+
 impl MachineAdapter for TestRunnerAdapter {
     fn codegen(&self) -> Option<Arc<Mutex<CodegenContext>>> {
         Some(self.ctx.clone())
@@ -241,40 +254,28 @@ impl MachineAdapter for TestRunnerAdapter {
         // Lock the state first: the machine thread only executes while it holds this lock, so the program counter we read
         // is still the machine's program counter when 'Stopped' becomes visible
         let mut state = self.state.lock().unwrap();
-        let pc = self.runner.read().unwrap().cpu().get_program_counter();
-        let old = *state;
-        let new = MachineRunningState::Stopped(ProgramCounter::new(pc as usize));
-        *state = new;
-        self.event_sender
-            .send(MachineEvent::RunningStateChanged { old, new })?;
-        Ok(())
+        self.stop_where_we_are(&mut state)
     }
 
+    // The steps hold the running state for as long as they execute, like the machine thread does: if a step arrives while the
+    // machine runs freely, it cannot slip in between the machine thread's look at the breakpoints and the instruction it
+    // then executes (which would no longer be the instruction it has looked at)
     fn next(&mut self) -> MosResult<()> {
-        {
-            let mut runner = self.runner.write().unwrap();
-            runner.step_over()?;
-        }
-        self.pause()?;
-        Ok(())
+        let mut state = self.state.lock().unwrap();
+        self.runner.write().unwrap().step_over()?;
+        self.stop_where_we_are(&mut state)
     }
 
     fn step_in(&mut self) -> MosResult<()> {
-        {
-            let mut runner = self.runner.write().unwrap();
-            runner.execute_instruction()?;
-        }
-        self.pause()?;
-        Ok(())
+        let mut state = self.state.lock().unwrap();
+        self.runner.write().unwrap().execute_instruction()?;
+        self.stop_where_we_are(&mut state)
     }
 
     fn step_out(&mut self) -> MosResult<()> {
-        {
-            let mut runner = self.runner.write().unwrap();
-            runner.step_out()?;
-        }
-        self.pause()?;
-        Ok(())
+        let mut state = self.state.lock().unwrap();
+        self.runner.write().unwrap().step_out()?;
+        self.stop_where_we_are(&mut state)
     }
 
     fn set_breakpoints(
